@@ -761,7 +761,7 @@ VH_CMD(snapshot)
         int H = rng.chance(2, 5) ? 0 : rng.below(110);
         int Hh = 110 + rng.below(4);
         if (scn == "tip_at_base") H = 110;
-        if (scn == "tip_above_base") H = 111 + rng.below(3);
+        if (scn == "tip_above_base") H = 111 + rng.below(2);
         if (scn == "invalid_base_in_chain" || scn == "invalid_ancestor_in_chain") H = 110 + rng.below(3);
         if (scn == "header_unknown") { Hh = 100 + rng.below(10); H = std::min(H, Hh); }
         if (scn == "consistent_snapshot_of_uncommitted_block") H = std::min(H, 108);
